@@ -53,6 +53,15 @@ class Loops:
             r = it.fresh('selems', vals.SeqVal)
             kx = z3.String('k!it')
             j = z3.Int('j!it')
+            if O.nonstring_keys(it, v):
+                # a set of objects: some sequence of its distinct members
+                ox = z3.Int('o!it')
+                it.assume_axiom(z3.ForAll([i], z3.Implies(z3.And(0 <= i, i < z3.Length(r)),
+                                                    z3.And(V.is_ObjV(r[i]), z3.Select(V.selems(t), vals.OBJKEY(V.oid(r[i]))))),
+                                          patterns=[r[i]]))
+                it.assume_axiom(z3.ForAll([ox], z3.Implies(z3.Select(V.selems(t), vals.OBJKEY(ox)), z3.Contains(r, z3.Unit(V.ObjV(ox))))))
+                it.assume_axiom(z3.ForAll([i, j], z3.Implies(z3.And(0 <= i, i < j, j < z3.Length(r)), r[i] != r[j])))
+                return r
             it.assume_axiom(z3.ForAll([i], z3.Implies(z3.And(0 <= i, i < z3.Length(r)),
                                                 z3.And(V.is_StrV(r[i]), z3.Select(V.selems(t), V.s(r[i]))))))
             it.assume_axiom(z3.ForAll([kx], z3.Implies(z3.Select(V.selems(t), kx), z3.Contains(r, z3.Unit(V.StrV(kx))))))
@@ -191,7 +200,8 @@ class Loops:
             if v.kind == 'zip':
                 return 'tuple|' + '|'.join((self.elem_types(a) or '?') for a in v.data)
             if v.kind == 'dictitems':
-                return 'tuple|?|' + (O._elem_type(v.data.ty) or '?')
+                kty = '?' if (v.data.ty and ('[obj]' in v.data.ty.split(':', 1)[0] or '[int]' in v.data.ty.split(':', 1)[0])) else 'str'
+                return f'tuple|{kty}|' + (O._elem_type(v.data.ty) or '?')
             if v.kind == 'dictvalues':
                 return O._elem_type(v.data.ty)
             if v.kind == 'enumerate':
@@ -582,7 +592,17 @@ class Loops:
         return spec
 
     def exec_for(self, it, s):
-        itv = it.ev(s.iter)
+        iter_node = s.iter
+        if isinstance(iter_node, ast.Call) and isinstance(iter_node.func, ast.Name) and iter_node.func.id == 'list' \
+                and len(iter_node.args) == 1 and not iter_node.keywords and 'list' not in it.env:
+            # for ... in list(x): iteration over a snapshot of x; containers have value semantics here, so the
+            # iterated sequence is fixed at loop entry in either form
+            iter_node = iter_node.args[0]
+        itv = it.ev(iter_node)
+        self._items_of = None
+        if isinstance(itv, PV) and itv.kind == 'dictitems' and isinstance(iter_node, ast.Call) \
+                and isinstance(iter_node.func, ast.Attribute) and iter_node.func.attr == 'items':
+            self._items_of = iter_node.func.value       # for k, v in X.items(): v aliases the slot X[k]
         seq = self.iter_seq(it, itv)
         ety = self.elem_types(itv)
         ln = simp(z3.Length(seq))
@@ -590,6 +610,7 @@ class Loops:
             broke = False
             for j in range(ln.as_long()):
                 it.assign(s.target, SV(simp(seq[j]), ety))
+                self._alias_item_value(it, s)
                 try:
                     it.exec_block(s.body)
                 except PyBreak:
@@ -616,6 +637,20 @@ class Loops:
             elif vals._c(t) == 'SetV':
                 keyinfo = (t.arg(0), lambda el: el)
         self.invariant_loop(it, s, spec, seq, ety, keyinfo)
+
+    def _alias_item_value(self, it, s):
+        """for k, v in X.items(): a mutation of v is a mutation of X[k] (python object identity)"""
+        node = getattr(self, '_items_of', None)
+        t = s.target
+        if node is None or not (isinstance(t, ast.Tuple) and len(t.elts) == 2 and all(isinstance(e, ast.Name) for e in t.elts)):
+            return
+        from .engine import _Lit
+        kv, vv = it.env.get(t.elts[0].id), it.env.get(t.elts[1].id)
+        if isinstance(kv, SV) and isinstance(vv, SV):
+            slot = ast.Subscript(value=node, slice=_Lit(kv), ctx=ast.Load())
+            ast.copy_location(slot, node)
+            slot.lineno = getattr(node, 'lineno', 0)
+            it.env[t.elts[1].id] = SV(vv.t, vv.ty, slot)
 
     def modified(self, body):
         names, fields = set(), set()
@@ -709,6 +744,10 @@ class Loops:
                 has, keyof = keyinfo
                 D = it.fresh('done', z3.ArraySort(StrS, BoolS))
                 kx = z3.String('k!done')
+                # the declared kinds of the element (and of the key inside an items() pair) first: the key is split below
+                self.world.element_kind(it, seq[i], ety)
+                if ety and ety.startswith('tuple|') and ety.split('|')[1] not in ('?', ''):
+                    self.world.element_kind(it, it.refine(keyof(seq[i])), ety.split('|')[1])
                 cur = it.refine(keyof(seq[i]))
                 curk = vals.ks(it.split_kind(SV(cur)).t)
                 it.assume_axiom(vals.key_axiom(it.refine(cur)))
@@ -719,6 +758,7 @@ class Loops:
             self.assume_inv(it, spec, env)
             self.world.element_kind(it, seq[i], ety)
             it.assign(s.target, SV(seq[i], ety))
+            self._alias_item_value(it, s)
             heap_before = dict(it.heap)
             try:
                 it.exec_block(s.body)
